@@ -322,6 +322,18 @@ fn sweep_graph(dir: &Path, idx: usize, g: &Graph, level: u8, spellings: bool) ->
                         }
                     }
                 }
+                // the same problem through an external SAT backend with a different model preference than
+                // CaDiCaL's (the stand-in program reports the lexicographically smallest / largest model)
+                if std::path::Path::new(crate::checks::c15::fake_sat()).exists() {
+                    let prefer = if (sem as usize + arg.unwrap_or(0)) % 2 == 0 { "min" } else { "max" };
+                    let mut a = vec!["solve".to_string(), "-f".into(), f_af.display().to_string(), "-p".into(), problem.clone(), "--logging-level".into(), "off".into(), "-c".into()];
+                    if let Some(x) = arg {
+                        a.push("-a".into());
+                        a.push((x + 1).to_string());
+                    }
+                    a.extend(["--external-sat-solver".to_string(), crate::checks::c15::fake_sat().to_string(), "--external-sat-solver-opt".into(), format!("prefer={}", prefer)]);
+                    configs.push((Invocation { bin: bin_solve(), args: a }, true, true, false));
+                }
                 for (inv, cert, iccma, logging) in configs {
                     let r = run(&inv);
                     acc.processes += 1;
@@ -502,6 +514,9 @@ pub fn run_check(tier: Tier) -> i32 {
             tasks.push((tasks.len(), g, if thorough { 1 } else { 0 }, false));
         }
     }
+    // a chain (defended arguments inside one component) and a chain next to an isolated argument
+    tasks.push((tasks.len(), crate::universe::chain(3), 1, false));
+    tasks.push((tasks.len(), crate::universe::chain(4).union(&Graph::new(1, &[])), 0, false));
     for (n, g) in crate::universe::family_s() {
         if (n == "floating" || n == "ring3+pairs2" || (thorough && g.n <= 8)) && g.n <= 8 {
             tasks.push((tasks.len(), g, if thorough { 1 } else { 0 }, false));
